@@ -291,13 +291,24 @@ def _r184(ctx, res) -> None:
     if acc is None:
         res.undecided("R18.4", "read_data|empty", rd.where, "accumulator list of loaded objects not found")
         return
+    # other names of the same list (`result = records` after a helper was read in place)
+    accs = {acc}
+    grew = True
+    while grew:
+        grew = False
+        for n in walk_local(common.inlined(idx, rd)):
+            if isinstance(n, ast.Assign) and isinstance(n.value, ast.Name) and n.value.id in accs:
+                for t in n.targets:
+                    if isinstance(t, ast.Name) and t.id not in accs:
+                        accs.add(t.id)
+                        grew = True
 
     def nonempty(t: ast.AST, pol: bool) -> bool:
         """condition (with polarity) implies len(acc) >= 1"""
-        if isinstance(t, ast.Name) and t.id == acc:
+        if isinstance(t, ast.Name) and t.id in accs:
             return pol
         if isinstance(t, ast.Compare) and len(t.ops) == 1 and isinstance(t.left, ast.Call) and call_name(t.left) == "len" \
-                and t.left.args and isinstance(t.left.args[0], ast.Name) and t.left.args[0].id == acc \
+                and t.left.args and isinstance(t.left.args[0], ast.Name) and t.left.args[0].id in accs \
                 and isinstance(t.comparators[0], ast.Constant) and isinstance(t.comparators[0].value, int):
             k, op = t.comparators[0].value, t.ops[0]
             if pol:
@@ -306,6 +317,7 @@ def _r184(ctx, res) -> None:
         return False
 
     bad = []
+    indexed = []
     n = 0
     for node in cfg.nodes:
         if node.kind != "stmt" or not isinstance(node.ast, ast.Return) or node.ast.value is None:
@@ -322,14 +334,24 @@ def _r184(ctx, res) -> None:
             else:
                 out.append((v, conds))
         for v, conds in out:
-            if isinstance(v, ast.Name) and v.id == acc:
+            if isinstance(v, ast.Name) and v.id in accs:
                 n += 1
                 if not any(nonempty(t, p) for t, p in outer + conds):
                     bad.append(node)
+            # an element of the list (`result[0]`) exists only when the list is non-empty
+            for sub in ast.walk(v):
+                if isinstance(sub, ast.Subscript) and isinstance(sub.value, ast.Name) and sub.value.id in accs and not isinstance(sub.slice, ast.Slice):
+                    n += 1
+                    if not any(nonempty(t, p) for t, p in outer + conds):
+                        indexed.append(node)
     res.add("R18.4", "read_data|empty", not bad, rd.where,
             f"the list of loaded objects is returned only when it is non-empty ({n} return arm(s)); otherwise the reader falls through to None" if not bad else
             f"read_data can return the (possibly empty) list of loaded objects (line {bad[0].lineno}) without a test that it is non-empty: for an empty or "
             "truncated data file it answers [] instead of None, the consumers' `is not None` tests pass, and opening the project raises on the empty value")
+    res.add("R18.4", "read_data|element-of-empty", not indexed, f"{rd.unit.rel}:{indexed[0].lineno}" if indexed else rd.where,
+            "an element of the list of loaded objects is taken only when the list is known to be non-empty" if not indexed else
+            f"read_data takes an element of the list of loaded objects (line {indexed[0].lineno}) on a path where the list can be EMPTY: a data file that a "
+            "crash left empty or cut inside its first record yields no object at all, the indexing raises IndexError, and the project cannot be opened")
 
 
 def _r185(ctx, res, writer_funcs) -> None:
